@@ -7,6 +7,7 @@ import Xandikos.Py.PathProofs2
 import Xandikos.Store.UidProofs
 import Xandikos.Http.World
 import Xandikos.Tie.HrefEq
+import Xandikos.Tie.TraverseEq
 
 namespace Xandikos.Theorems.C16
 open Xandikos Xandikos.Http Xandikos.Py
@@ -26,6 +27,37 @@ theorem ensure_trailing_slash_ends_in_slash (h : List Char) :
   by_cases hl : h.getLast? = some '/'
   · simp [hl]
   · simp [hl]
+
+/-- **Depth 0 describes exactly the addressed resource** — on `webdav.traverse_resource` as
+    translated from /repo on this run (`hrefOf`: a collection's href gets its trailing slash) -/
+theorem code_depth0_exactly_the_resource (fuel : Nat) (r : Py.ResTree) (h : String) :
+    Generated.traverse_resource (fuel + 1) r h "0" = .ok [(Tie.hrefOf r h, r)] :=
+  Tie.traverse_depth0 fuel r h
+
+/-- **Depth 1 describes the resource and exactly its direct members, each once**, in the order
+    `members()` yields them, under the href `childHref` gives (the collection's href with its
+    trailing slash, then the name; a member that is a collection ends in `/`); a resource that
+    is not a collection has no members to report -/
+theorem code_depth1_exactly_the_members (fuel : Nat) (r : Py.ResTree) (h : String)
+    (hf : r.members.length ≤ fuel) :
+    Generated.traverse_resource (fuel + 1) r h "1" =
+      .ok ((Tie.hrefOf r h, r) ::
+        (if r.isCollection then r.members.map fun x => (Tie.hrefOf x.2 (childHref h x.1), x.2) else [])) :=
+  Tie.traverse_depth1 fuel r h hf
+
+/-- an unknown Depth is an error, never a (partial) listing -/
+theorem code_unknown_depth_is_an_error (fuel : Nat) (r : Py.ResTree) (h d : String)
+    (h0 : d ≠ "0") (h1 : d ≠ "1") (hi : d ≠ "infinity") :
+    Generated.traverse_resource (fuel + 1) r h d = .error (.raised "AssertionError" d) :=
+  Tie.traverse_bad_depth fuel r h d h0 h1 hi
+
+/-- non-vacuity: a calendar with a member and a sub-collection -/
+example :
+    Generated.traverse_resource 5 (.node true [("a b.ics", .node false []), ("sub", .node true [("x.ics", .node false [])])])
+        "/user/cal" "1" =
+      .ok [("/user/cal/", .node true [("a b.ics", .node false []), ("sub", .node true [("x.ics", .node false [])])]),
+           ("/user/cal/a b.ics", .node false []), ("/user/cal/sub/", .node true [("x.ics", .node false [])])] := by
+  rfl
 
 /-- **Every emitted href decodes to the path it was built from** — for every string, hence for
     member names with spaces, `%`, `#`, `?`, `;`, `+`, `&`, `:` and non-ASCII characters, under
